@@ -332,13 +332,17 @@ Fixpoint leaves (h : nat) (t : tree) : list leaf :=
 Definition abs (h : nat) (t : tree) : list entry := flat_map lcells (leaves h t).
 
 (* bounds of child number i of an interior node whose own key range is (lo, hi) *)
-Definition lo_at (lo : option key) (kids : list kid) (i : nat) : option key :=
-  match i with
-  | O => lo
-  | S j => match nth_error kids j with Some sc => Some (fst sc) | None => lo end
+Fixpoint lo_at (lo : option key) (kids : list kid) (i : nat) : option key :=
+  match i, kids with
+  | S j, sc :: rest => lo_at (Some (fst sc)) rest j
+  | _, _ => lo
   end.
-Definition hi_at (hi : option key) (kids : list kid) (i : nat) : option key :=
-  match nth_error kids i with Some sc => Some (fst sc) | None => hi end.
+Fixpoint hi_at (hi : option key) (kids : list kid) (i : nat) : option key :=
+  match kids, i with
+  | [], _ => hi
+  | sc :: _, O => Some (fst sc)
+  | _ :: rest, S j => hi_at hi rest j
+  end.
 
 (* the separator immediately left of the routed leaf on the descent path (its lower bound) *)
 Fixpoint lower_sep (h : nat) (t : tree) (lo : option key) (k : key) : option key :=
